@@ -159,7 +159,7 @@ func getRanger(v reflect.Value) (r Ranger, cleanup func(), err error) {
 		return nil, nil, errors.New("can't range over invalid value")
 	}
 	t := v.Type()
-	if t.Implements(rangerType) {
+	if t.Implements(rangerType) && !(v.Kind() == reflect.Interface && v.IsNil()) {
 		return v.Interface().(Ranger), func() { /* no cleanup needed */ }, nil
 	}
 
